@@ -11,6 +11,7 @@
 //	           nonce / new_nonce / b in whatever it does next); followed by a new exchange
 //	i%6 == 4   the server corrupts the nonce of resPQ: the exchange fails after the first message;
 //	           followed by a new exchange
+//	i%6 == 5   the system random source fails once, at the k-th read of the exchange (k = 1..5 in turn)
 //	otherwise  conformant exchange
 //
 // What is checked is what the SERVER received: nonce (req_pq), new_nonce (RSA-decrypted
@@ -88,6 +89,13 @@ func exchangeMain(args []string) {
 			fault, fname = &hsserver.Fault{Target: "genok.ctor", Kind: "ctor:dh_gen_retry"}, "dh_gen_retry"
 		case 4:
 			fault, fname = &hsserver.Fault{Target: "respq.nonce", Kind: "flip", Pos: 5}, "respq.nonce-flip"
+		case 5:
+			// the system source FAILS at the k-th read of this exchange (k = 1: nonce, 2: new_nonce, 3..: DH exponent and
+			// whatever else is drawn): the exchange may end in an error or a panic, but nothing the server receives may be
+			// a value that was not drawn (a zero or stale secret sent on).  Followed by a new exchange.
+			k := 1 + (i/6)%5
+			fname = "read-fails@" + strconv.Itoa(k)
+			rec.failRead(i, k)
 		}
 		p, q := smallPrime(r), smallPrime(r)
 		for p.Cmp(q) == 0 {
